@@ -309,8 +309,62 @@ def remove_tautologies(ev):
     return [[var, val] for var, val in ev if not any(int(n) == int(var[1]) and s_ == val for n, s_ in var[4])]
 
 
+def _frag3(case):
+    """FRAGMENT 3 (`inFragment3B` / `Frag3At`, theorem idstar_sound_fragment3): a well-formed event that does not violate
+    effectiveness, keeps a conjunct after line 3, and whose counterfactual graph g -- built here by the REAL
+    make_counterfactual_graph from the event without its tautologies, worlds in sorted order; the driver builds it with the MODEL --
+    satisfies: (a) at most one non-self-intervened node per variable; (b) no non-self-intervened node named like a subscript of a node
+    of g; (c) the subscripts of the nodes of g are mutually consistent; (d) bidirected edges of the diagram between non-self-intervened
+    nodes are edges of g; (e) line 9 (connected): the subscript by which a self-intervened node is intervened is a subscript of a
+    non-self-intervened node; line 6: no starred-valued key is a parent of a non-self-intervened node and no node is
+    self-intervened on a starred subscript."""
+    import importlib
+
+    ev = case["event"]
+    if not ev or not _good_event(case) or _violates_effectiveness(ev):
+        return 0
+    red = remove_tautologies(ev)
+    if not red:
+        return 0
+    g = case["g"]
+    try:
+        S.topo_order(set(G.all_nodes(g)), [tuple(e) for e in g["di"]])
+    except ValueError:
+        return 0
+    cg = importlib.import_module("y0.algorithm.identify.cg")
+    try:
+        with K.fixed_world_order((0, 0)):
+            cf, nev = cg.make_counterfactual_graph(G.to_nx_mixed(g), K.dec_event(red))
+    except Exception:  # noqa: BLE001
+        return 0
+    if nev is None:
+        return 0
+    nodes = list(cf.nodes())
+    nsi = [n for n in nodes if not _is_self_intervened(n)]
+    si = [n for n in nodes if _is_self_intervened(n)]
+    subs = {(i.name, bool(i.star)) for x in nodes for i in getattr(x, "interventions", ())}
+    ok = len({n.name for n in nsi}) == len(nsi)
+    ok = ok and not ({n.name for n in nsi} & {a for a, _ in subs})
+    ok = ok and len({a for a, _ in subs}) == len(subs)
+    bi = {frozenset((G.vname(u), G.vname(v_))) for u, v_ in g["bi"]}
+    for i_, a in enumerate(nsi):
+        for b in nsi[i_ + 1:]:
+            if a.name != b.name and frozenset((a.name, b.name)) in bi and not cf.undirected.has_edge(a, b):
+                ok = False
+    if not ok:
+        return 0
+    if cf.subgraph(nsi).is_connected():
+        nsub = {(i.name, bool(i.star)) for x in nsi for i in getattr(x, "interventions", ())}
+        return int(all((i.name, bool(i.star)) in nsub for x in si for i in x.interventions if i.name == x.name))
+    di = {(G.vname(u), G.vname(v_)) for u, v_ in g["di"]}
+    starred = {k.name for k, val in nev.items() if val.star}
+    if any((k, n.name) in di for k in starred for n in nsi):
+        return 0
+    return int(not any(i.star for x in si for i in x.interventions if i.name == x.name))
+
+
 def fragment_flags(case):
-    """[fragment 1, fragment 2, single-world, fragment 2R] (see _flags3).  Fragment 2R: a well-formed event (any number of worlds)
+    """[fragment 1, fragment 2, single-world, fragment 2R, fragment 3] (see _flags3, _frag3).  Fragment 2R: a well-formed event (any number of worlds)
     that violates effectiveness, or all of whose conjuncts are tautologies, or that line 3 reduces to an event of fragment 2
     (`inFragment2RB` / theorem idstar_sound_fragment2R)."""
     f = _flags3(case)
@@ -319,7 +373,7 @@ def fragment_flags(case):
     if ev and _good_event(case):
         red = remove_tautologies(ev)
         r = int(_violates_effectiveness(ev) or not red or bool(_flags3(dict(case, event=red))[1]))
-    return f + [r]
+    return f + [r, _frag3(case)]
 
 
 def in_fragment(case):
@@ -384,7 +438,7 @@ def _evaluate(case, n_models=8, with_unpatched=True):
     flags = fragment_flags(case)
     okc = bool(case["event"]) and not case.get("malformed") and dom
     frag, frag2s, ow = bool(okc and flags[0]), bool(okc and flags[1]), bool(okc and flags[2])
-    frag2 = bool(okc and (flags[1] or flags[3]))
+    frag2 = bool(okc and (flags[1] or flags[3] or flags[4]))
     if dom and ow and not fail:
         # theorems idstar_answers_oneworld / idstar_zero_iff_line2_oneworld: on a single-world event ID* never refuses, and it
         # returns Zero exactly when line 2 fires
@@ -398,7 +452,8 @@ def _evaluate(case, n_models=8, with_unpatched=True):
                                         "(idstar_zero_iff_line2_oneworld)"), "zero-iff-line2", strat_of.get(json.dumps(r))
                 break
     return {"by_order": by_order, "unpatched": r0, "fail": fail, "kind": kind, "in_domain": dom, "strategy": strategy,
-            "in_fragment": frag, "in_fragment2": frag2, "one_world": ow, "in_fragment2_strict": frag2s, "flags": flags}
+            "in_fragment": frag, "in_fragment2": frag2, "one_world": ow, "in_fragment2_strict": frag2s, "flags": flags,
+            "in_fragment2r": bool(okc and flags[3]), "in_fragment3": bool(okc and flags[4])}
 
 
 # ------------------------------------------------------------------------------------------ locating a failure in the recursion
@@ -548,7 +603,8 @@ def _coarse_key(case, r):
     present at that step); None when the failure cannot be located (then the shrunk input is the key)"""
     if r.get("in_fragment") or r.get("in_fragment2"):
         # never listed: the fragments are covered by theorems, nothing that fails inside them can be a known finding
-        return json.dumps(["IN-FRAGMENT", 1 if r.get("in_fragment") else 2, r["kind"]])
+        return json.dumps(["IN-FRAGMENT", 1 if r.get("in_fragment") else 3 if not (r.get("in_fragment2_strict") or
+                                                                                  r.get("in_fragment2r")) else 2, r["kind"]])
     if r["kind"] in ("refusal", "zero-iff-line2"):
         return json.dumps(["ONE-WORLD", r["kind"]])
     if r["kind"] not in ("value", "zero"):
@@ -589,8 +645,8 @@ def run_python(case):
             "in_fragment_past_line3": bool(r["in_fragment"] and past3), "gen": case.get("gen", "random"),
             "in_fragment2": r["in_fragment2"], "in_fragment2_past_line3": bool(r["in_fragment2"] and past3),
             "coverage": ("not-in-domain" if not r["in_domain"] else "fragment1" if r["in_fragment"] else
-                         "fragment2" if r["in_fragment2_strict"] else "fragment2R" if r["in_fragment2"] else
-                         "single-world-outside" if r["one_world"] else
+                         "fragment2" if r["in_fragment2_strict"] else "fragment2R" if r["in_fragment2r"] else
+                         "fragment3" if r["in_fragment3"] else "single-world-outside" if r["one_world"] else
                          "multi-world-" + ("zero" if shape == "zero" else "refused" if shape == "unidentifiable" else "estimand"))}
     nontrivial = r["in_domain"] and K.n_worlds(ev) >= 1 and bool(case["g"]["di"] or case["g"]["bi"]) and past3 and \
         shape in ("P", "sum", "prod", "unidentifiable", "zero")
